@@ -245,6 +245,26 @@ def run(chk):
             return False, "the frame must come from push_ctxt", [], b.span
         if not common.has_root(b.origin(pc[0].args[1]), "param", 2):
             return False, "push_ctxt is not given the ctxt argument", [], pc[0].loc
+        # enabled exactly when the filter accepted: the guard gets Some(completion) only on the accept edge of that one decision
+        aggs = [st for bb_, j_, st in b.statements(normal_only=True) if st["k"] == "assign" and st["rv"]["k"] == "agg"
+                and (st["rv"].get("adt") or "").split("<")[0].endswith("span::SpanGuard")]
+        if len(aggs) != 1:
+            raise mir.AnchorMissing("the SpanGuard literal in SpanGuard::new")
+        comp = dict(zip(aggs[0]["rv"]["fields"], aggs[0]["rv"]["ops"]))["completion"]
+        pl = comp.get("m") or comp.get("c")
+        somes = [d for d in b.defs().get(pl["l"], ()) if d[2] == "assign" and d[3].get("variant") == "Some"]
+        nones = [d for d in b.defs().get(pl["l"], ()) if d[2] == "assign" and d[3].get("variant") == "None"]
+        if len(somes) != 1 or len(nones) != 1:
+            return False, "the guard's completion is not `if <accepted> { Some(completion) } else { None }`", [], b.span
+        def decided_by_filter(bb_, want_true):
+            for gbb, vals, n in b.guards_of(bb_):
+                so = b.switch_origin(gbb)
+                if so[0] == "call" and so[1].bb == wc[0].bb and (list(vals) != ["0"]) == want_true:
+                    return True
+            return False
+        if not decided_by_filter(somes[0][0], True) or not decided_by_filter(nones[0][0], False):
+            return False, ("a span is enabled (Some(completion), ids pushed) on an edge that is not the span filter's accept edge, or disabled on "
+                           "one that is not its reject edge: a rejected span would contribute ids, or an accepted one none"), [], b.span
         return True, "", [nc[0].loc, ms[0].loc, pc[0].loc]
     chk.ob("C04.R4:SpanGuard::new", "the span context is the child of the *current* ambient context; the filter sees ids + ambient props", guard_new)
 
